@@ -13,7 +13,7 @@ _ALPHA = {}
 FLAG_MN = {"zi", "fw", "fr", "fc"}
 
 CYC_MN = ["opsd", "opbs", "opsb", "opdb", "mv0", "tie", "fw", "fr", "zi", "nodb"]
-MEM_MN = ["ldc", "ldcb", "st", "ld"]
+MEM_MN = ["ldc", "ldcb", "st", "ld", "rmw"]
 
 
 def setup(ctx, sub="c05"):
@@ -34,7 +34,8 @@ def setup(ctx, sub="c05"):
             for ops in combos:
                 alpha.append(((mn, ops), f.ri_reg(mn, ops)))
         for mn in MEM_MN:
-            modes = ["off"] if f.isa == "x86" else ["off", "pre", "post"]
+            # (AArch64 has no read-modify-write instruction with write-back addressing)
+            modes = ["off"] if f.isa == "x86" or mn == "rmw" else ["off", "pre", "post"]
             for data, base in ((a, b), (b, a)) if mn != "ld" else ((a, b),):
                 for mode in modes:
                     if f.isa == "aarch64" and mn in ("ldc", "ldcb") and not data.startswith("x"):
@@ -56,16 +57,17 @@ def lcd_observed(kernel, g):
 
 
 def _with_bumps(seq):
-    """the family's register instructions change their destination by an unknown amount"""
+    """address tracking view of the family: every register an instruction writes changes by an
+    unknown amount, except the write-back of a pre-/post-indexed access (a constant)"""
     out = []
     for r in seq:
-        if r.loads or r.stores:
-            out.append(r)
-            continue
-        q = RD.RI(r.text, r.reads, r.writes, wb=r.wb, lat=r.lat, lat_exec=r.lat_exec,
-                  load_node=r.load_node, tag=r.tag,
-                  post_changes={w: None for w in r.writes if not RD.is_flag(w)})
-        out.append(q)
+        post = dict(r.post_changes)
+        for w in r.writes:
+            if not RD.is_flag(w) and w not in r.changes and w not in post:
+                post[w] = None
+        out.append(RD.RI(r.text, r.reads, r.writes, wb=r.wb, lat=r.lat, lat_exec=r.lat_exec,
+                         load_node=r.load_node, tag=r.tag, loads=r.loads, stores=r.stores,
+                         changes=r.changes, post_changes=post))
     return out
 
 
